@@ -71,6 +71,48 @@ def valid_corpus(rng, rows_by_ty, n):
     return out
 
 
+def undeclared_member_inputs(rng, every_path):
+    """For every typed command and every grouped holder class its avp_def reaches: a message of that command in which the
+    (possibly nested) grouped AVP carries one member its class does not declare.  A decoder must keep or drop such a
+    member; it may not fail with a foreign exception because the holder has nowhere to put it."""
+    from diameter.message import Message
+
+    def subs(c):
+        for x in c.__subclasses__():
+            yield x
+            yield from subs(x)
+    out, seen_holders = [], set()
+    stranger = O.ref_avp(99999990, 0, 0, b"\x01\x02\x03\x04")
+    twin = lambda d: O.ref_avp(d.avp_code, 0x80 if not d.vendor_id else 0, 0 if d.vendor_id else 9999999, b"\0\0\0\1")   # noqa
+
+    def walk(cls, hdr, defs, path, on_path):
+        for d in defs:
+            t = d.type_class
+            if t is None or t in on_path:
+                continue
+            p2 = path + [d]
+            if every_path or t not in seen_holders:
+                seen_holders.add(t)
+                for inner in (stranger, twin(t.avp_def[0]) if getattr(t, "avp_def", None) else stranger):
+                    body = inner
+                    for q in reversed(p2):
+                        body = O.ref_avp(q.avp_code, (0x80 if q.vendor_id else 0) | 0x40, q.vendor_id, body)
+                    m = bytearray(hdr + body)
+                    m[1:4] = len(m).to_bytes(3, "big")
+                    out.append((bytes(m), f"{cls.__name__}: undeclared member in " + "/".join(x.attr_name for x in p2)))
+            walk(cls, hdr, getattr(t, "avp_def", ()), p2, on_path | {t})
+    for cls in sorted(set(subs(Message)), key=lambda c: (c.__module__, c.__name__)):
+        if not getattr(cls, "avp_def", None):
+            continue
+        try:
+            h = cls().header
+            hdr = bytes([1, 0, 0, 20, h.command_flags]) + h.command_code.to_bytes(3, "big") + h.application_id.to_bytes(4, "big") + bytes(8)
+        except Exception:   # noqa
+            continue
+        walk(cls, hdr, cls.avp_def, [], set())
+    return out
+
+
 def length_field_offsets(wire):
     """offsets of every 3-byte length field: message, AVPs, nested AVPs (by the RFC layout)"""
     offs = [1]
@@ -208,6 +250,10 @@ def check(run):
         nest = O.ref_avp(g[0], (0x80 if g[1] else 0) | 0x40, g[1], nest)
     inputs.append((hdr20[:20] + nest, "nesting-16"))
     inputs.append((hdr20[:20] + nest[:-3], "nesting-16-truncated"))
+    um = undeclared_member_inputs(rng, thorough)
+    run.extra["undeclared_member_inputs"] = len(um)
+    for b, why in um:
+        inputs.append((b, "undeclared-member"))
     seen = set()
     uniq = []
     for b, o in inputs:
